@@ -51,6 +51,9 @@ def build_msg(c):
             m.set(t, v)
         except Exception:
             pass
+    if c.get("long_text"):
+        # a large frame (kept out of the case description: Text(58) of that many characters)
+        m.set(58, ("Lorem ipsum dolor sit amet, zzzz~~~~ " * (c["long_text"] // 37 + 1))[:c["long_text"]])
     return m
 
 
@@ -71,6 +74,10 @@ BATTERY = [
     {"type": "D", "tags": [["11", "x"], ["453", [{"448": "PARTY", "447": "D", "452": "3"}, {"448": "P2", "447": "D", "452": "1"}]]]},
     {"type": "D", "tags": [["11", "x"]], "target": "TÄRGET"},
     {"type": "Ü", "tags": [["11", "x"]]},
+    # large frames: byte sums far beyond 16 bits, BodyLength of 4-6 digits, a frame larger than a 64 KiB write buffer
+    {"type": "D", "tags": [["11", "x"]], "long_text": 700},
+    {"type": "D", "tags": [["11", "x"]], "long_text": 5000},
+    {"type": "B", "tags": [["148", "headline"]], "long_text": 70000, "nout": 99999999},
 ]
 
 
@@ -126,7 +133,8 @@ def run(c):
     except BaseException as e:  # noqa
         out["outcome"] = "raise:" + type(e).__name__
         frames = []
-    out["frames"] = [f.decode("latin-1") for f in frames]
+    out["frames"] = [f.decode("latin-1") if len(f) <= 4000 else
+                     f[:300].decode("latin-1") + f"...<{len(f) - 600} bytes>..." + f[-300:].decode("latin-1") for f in frames]
     bad = []
     for f in frames:
         bad += parse_frame(f)
